@@ -214,6 +214,19 @@ def check_single(res, spec, coordsys, fmt, radunit):
                       f'{dict(P2[0].meta) if len(P2) == 1 else None}; visual {dict(P[0].visual)} -> {dict(P2[0].visual) if len(P2) == 1 else None}', text, text2)
     if text3 != text2:
         res.violation(ID, 'not_fixed_point', case, 'serialize(parse(serialize(P))) != serialize(P)', text2, text3)
+    # a parsed region is a region like any other: what is written after an edit is its CURRENT state
+    if spec['shape'] == 'text' and len(P2) == 1:
+        try:
+            res.transitions += 1
+            P2[0].text = 'renamed after parsing'
+            P3 = _parse(_ser([P2[0]], **kw))
+            back = P3[0].text if len(P3) == 1 else None
+        except Exception as exc:
+            res.violation(ID, 'fixed_point_raises', case, f'serialising a parsed text region after editing its text raised {type(exc).__name__}: {str(exc)[:200]}')
+            return
+        if back != 'renamed after parsing':
+            res.violation(ID, 'edit_after_parse_lost', case, f'a parsed text region whose text was changed to \'renamed after parsing\' is written and read '
+                                                            f'back with text {back!r}', 'renamed after parsing', back)
     nontriv = coordsys != spec['frame'] or (radunit not in (None, 'deg')) or spec.get('include') is False or spec.get('type') == 'ann'
     if nontriv:
         res.nontriv(('single', spec, coordsys, fmt, radunit))
@@ -245,6 +258,8 @@ METAS = [
     ({'corr': ['I', 'Q']}, {'linestyle': '--'}),
     ({'label': 'lbl'}, {'labelpos': 'top', 'font': 'Helvetica', 'fontsize': '12', 'fontstyle': 'bold', 'usetex': 'false'}),
     ({}, {'symsize': 3, 'symthick': 2}),
+    # '#' starts a comment only at the beginning of a line: inside values it is an ordinary character
+    ({'label': 'src #3'}, {'color': '#ff8800'}),
 ]
 
 
@@ -301,7 +316,7 @@ def single_cases(tier):
                     continue
                 spec = {'shape': shape, 'frame': frame, 'pos': 0, 'size': 0, 'include': 'absent', 'type': None, 'meta': m, 'visual': v}
                 out.append([spec, 'image' if frame == 'image' else frame, '.6f', None if frame == 'image' else 'arcsec'])
-    for t in ('plain', 'two words', 'with, comma', "it's", 'semi; colon', '30"', "5'", '"core"', 'beam 12" x 8"'):
+    for t in ('plain', 'two words', 'with, comma', "it's", 'semi; colon', '30"', "5'", '"core"', 'beam 12" x 8"', 'field #7', '#1'):
         for frame in ('image', 'icrs'):
             spec = {'shape': 'text', 'frame': frame, 'pos': 0, 'size': 0, 'include': 'absent', 'type': None, 'text': t}
             out.append([spec, frame, '.6f', None if frame == 'image' else 'deg'])
